@@ -98,6 +98,22 @@ def term_stamp(cx):
         if v in NO_TERM_STAMP:
             continue
         ok = g.dominated_by_block(push.at, lambda b: b in stamp_blocks, assume=[("in", mt, frozenset([v]), MT)])
+        if not ok:
+            # the stamped value reaches the field through a computed result (`m.term = match self.outgoing_term(..) { Ok(t) => t, .. }`):
+            # on every path of this type to the end of send() the last value stored into m.term is self.term
+            tw = {}
+            for s_ in cx.prog.writes.get("Message.term", []):
+                if s_.fn is send and s_.kind == "write" and "stmt" in s_.data:
+                    tw.setdefault(s_.block, []).append(s_)
+
+            def write_eval(n, tw=tw):
+                ws = tw.get(g.nodes[n][0])
+                if not ws:
+                    return None
+                w = sorted(ws, key=lambda x: x.idx)[-1]
+                val = a.expr_rvalue(w.data["stmt"]["rv"], w.at, 0, g.env_at(n, w.idx) or None)
+                return bool(is_f(val, TERM))
+            ok = bool(tw) and g.holds_at_exit(write_eval, assume=[("in", mt, frozenset([v]), MT)])[0]
         cx.check(ok, "stamp:" + v, "a %s leaves send() only after `m.term := self.term`" % v, push)
 
 
@@ -135,10 +151,25 @@ def priority_stamp(cx):
     for s in cx.prog.writes.get("Message.priority", []):
         if s.fn is send and s.kind == "write" and "stmt" in s.data and is_f(a.expr_rvalue(s.data["stmt"]["rv"], s.at), "RaftCore.priority"):
             blocks.add(s.block)
-    cx.check(bool(blocks), "site", "send() stamps m.priority := self.priority")
+    pw = {}
+    for s_ in cx.prog.writes.get("Message.priority", []):
+        if s_.fn is send and s_.kind == "write" and "stmt" in s_.data:
+            pw.setdefault(s_.block, []).append(s_)
+
+    def write_eval(n):
+        ws = pw.get(g.nodes[n][0])
+        if not ws:
+            return None
+        w = sorted(ws, key=lambda x: x.idx)[-1]
+        return bool(is_f(a.expr_rvalue(w.data["stmt"]["rv"], w.at, 0, g.env_at(n, w.idx) or None), "RaftCore.priority"))
     mt = ("field", mobj, "Message.msg_type")
+    by_value = {v: bool(pw) and g.holds_at_exit(write_eval, assume=[("in", mt, frozenset([v]), MT)])[0] for v in ("MsgRequestVote", "MsgRequestPreVote")} if not blocks else {}
+    cx.check(bool(blocks) or any(by_value.values()), "site", "send() stamps m.priority := self.priority")
     for v in ("MsgRequestVote", "MsgRequestPreVote"):
         ok = bool(blocks) and g.dominated_by_block(push.at, lambda b: b in blocks, assume=[("in", mt, frozenset([v]), MT)])
+        if not ok:
+            # the value reaches the field through a computed result: the last value stored on every path of this type
+            ok = bool(pw) and g.holds_at_exit(write_eval, assume=[("in", mt, frozenset([v]), MT)])[0]
         cx.check(ok, "stamp:" + v, "a %s leaves send() only after `m.priority := self.priority`" % v, push)
 
 
